@@ -69,6 +69,11 @@ class Linear(object):
 
 def check(run):
     R = run
+    R.rule('C05.shared', 'objects created once per class / per function definition (class-level attributes, parameter '
+           'defaults) are only read: no buffer, validator, poll object, header list or option dict is shared between '
+           'connections', 2)
+    from .common import shared_state
+    shared_state(R, 'C05.shared')
     R.rule('C05.dfa', 'validator table + transition expression induce a DFA equivalent (reject/accept status of '
                       'every reachable state pair under all 256 bytes) to the RFC 3629 reference DFA', 4)
     R.rule('C05.loop', 'validate(): index from 0 step 1 while < len; reject test after every step returning '
@@ -90,6 +95,9 @@ def check(run):
     route(R)
     track(R)
     strict(R)
+    from . import C06
+    with R.as_rule('C05.route'):
+        C06.activate(R)      # the parser is put in compression mode only when the extension was accepted
     from . import C01
     with R.as_rule('C05.exact'):
         C01.alias(R)
